@@ -126,6 +126,11 @@ def make_result(rng, cross=None, which=None, kind=None, backend="numba"):
         if kw["scheduler"].endswith(":lpsd"):
             kw["Lmin"] = 1      # lpsd ignores Lmin; the analyzer validates a user callable's L against it
     data = np.vstack([x, y]) if cross else x
+    layout = "2xN"
+    if cross and rng.random() < 0.25:
+        data = np.column_stack([x, y]); layout = "Nx2"          # the documented one-column-per-channel layout
+    if which == "single" and rng.random() < 0.12:
+        kw["olap"] = 0.99                                        # nominal shift below one sample for short segments
     an = SpectrumAnalyzer(data, fs, **resolve_kw(kw))
     with np.errstate(all="ignore"):
         if which == "single":
@@ -144,7 +149,7 @@ def make_result(rng, cross=None, which=None, kind=None, backend="numba"):
                 r = an.compute_single_bin(f0, fres=fres)
         else:
             r = an.compute()
-    return r, an, dict(cross=cross, which=which, kind=kind, N=N, fs=fs, order=order, scheduler=kw["scheduler"], win=win, x=x, y=y, kw=kw)
+    return r, an, dict(cross=cross, which=which, kind=kind, N=N, fs=fs, order=order, scheduler=kw["scheduler"], win=win, x=x, y=y, kw=kw, layout=layout)
 
 
 def envs(r):
